@@ -18,7 +18,8 @@ DONE = {
               "every operator of systemdict and CIDInit x adversarial operand tuples and size-parameterised recursion/growth "
               "shapes; the harness runs each against the real readers in child processes (address-space limit, watchdogs) and "
               "reports panics, fatal runtime errors and hangs; hostile charstrings and subroutines, hostile lenIV, every PFB "
-              "stream of MC_PFB, corrupted files. A deliberate panic is the negative control of every run. "
+              "stream of MC_PFB, corpus files with one byte replaced or cut off at every offset (incl. fonts with CR and CR LF "
+              "line ends), AFM files announcing about 2^e entries. A deliberate panic is the negative control of every run. "
               "Bounded-exhaustive over the pools, sampled beyond; no proof of absence of panics."),
         ref="6.1, 11 C01", tech=TECH_MBT + " (crash oracle, child processes)"),
     "C02": dict(
@@ -38,14 +39,14 @@ DONE = {
         text=("PSLex.tla is the PLRM tokenizer as a function from bytes to tokens and DSC comments. TLC enumerates every "
               "byte string up to length 3/4 over representative bytes, object sequences in hand-written spellings joined "
               "by every legal separator (with the specification's own round trip as a TLC invariant), seeded random walks "
-              "of longer sequences and DSC layouts; the library must read the same tokens. Trace validation: the output "
+              "of longer sequences and DSC layouts (also handed over in several calls); the library must read the same tokens. Trace validation: the output "
               "of String.PS / Name.PS is lexed by the specification."),
         ref="6.2, 11 C04", tech=TECH_MBT + " + trace validation of the serialisers"),
     "C05": dict(
         text=("Eexec.tla: the cipher identities are checked by TLC on every cipher state x byte; MC_Eexec prescribes with "
               "PSMachine the state after a section (plaintext run with systemdict pushed, closefile / end of file, clear "
               "trailer) for plaintext programs x forms x every legal lead-byte class pattern x white-space patterns x "
-              "blanks x trailers; the harness encrypts with its own cipher (checked against Eexec.tla) and compares the "
+              "blanks x the white space ending the section (LF, CR, CR LF) x trailers, sections placed at the scanner's refill boundaries; the harness encrypts with its own cipher (checked against Eexec.tla) and compares the "
               "interpreter state; cipher coverage through readstring on long random sections."),
         ref="6.3, 11 C05", tech=TECH_MBT),
     "C06": dict(
@@ -58,7 +59,7 @@ DONE = {
         ref="6.5, 10, 11 C06", tech=TECH_MBT),
     "C07": dict(
         text=("CIDInit.tla on PSMachine executes generated CMap files (options x block sequences of the seven kinds x "
-              "entry counts incl. 0/99/100 x mixed code lengths x every destination type x single-fault variants) and "
+              "entry counts incl. 0/99/100 and 101 supplied entries x mixed code lengths x every destination type x single-fault variants) and "
               "prescribes the dictionary ReadCMap must return, or an error; the harness lays the tokens out with seeded "
               "white space, comments and hex case and compares name, system info, type, WMode and every table."),
         ref="6.4, 11 C07", tech=TECH_MBT),
@@ -107,7 +108,9 @@ DONE = {
     "C11": dict(
         text=("Budget: PSMachine counts operations exactly as the library; TLC checks BudgetTransparent on the lock-step "
               "product of a budgeted and an unbudgeted run for every program x budget and the behaviours are replayed with "
-              "MaxOps=N (error identity, NumOps, state). Limits: recursion/growth shapes against the real constants. "
+              "MaxOps=N (error identity, NumOps, state), also split over two Execute calls and inside eexec sections. Limits: "
+              "recursion/growth shapes against the measured constants; recursion not in tail position must be ended by the nesting "
+              "limit whatever object the control operator was given. "
               "Start check: PSStart.tla over all 65536 two-byte prefixes and all call histories up to length 3-4."),
         ref="6.1, 11 C11", tech=TECH_MBT),
 }
